@@ -34,6 +34,8 @@ pub enum Cond {
 #[derive(Clone, Debug, PartialEq)]
 pub enum Stmt {
     Assign(usize, Lit),
+    /// `x = y`, `y` another variable
+    AssignVar(usize, usize),
     /// probe id assigned in document order when rendering
     Probe(usize),
     If(Cond, Vec<Stmt>, Vec<(Cond, Vec<Stmt>)>, Option<Vec<Stmt>>),
@@ -186,6 +188,10 @@ impl R {
                 let (lua, tok) = self.lit(l);
                 self.toks.extend(["A".to_string(), x.to_string(), tok]);
                 self.line(&format!("v{x} = {lua}"));
+            }
+            Stmt::AssignVar(x, y) => {
+                self.toks.extend(["V".to_string(), x.to_string(), y.to_string()]);
+                self.line(&format!("v{x} = v{y}"));
             }
             Stmt::Probe(x) => {
                 let id = self.probe;
@@ -532,6 +538,12 @@ fn parse_block(t: &[&str], i: &mut usize) -> Option<Vec<Stmt>> {
                 *i += 2;
                 Stmt::Assign(x, l)
             }
+            "V" => {
+                let x = t.get(*i)?.parse().ok()?;
+                let y = t.get(*i + 1)?.parse().ok()?;
+                *i += 2;
+                Stmt::AssignVar(x, y)
+            }
             "P" => {
                 let x = t.get(*i + 1)?.parse().ok()?;
                 *i += 2;
@@ -599,13 +611,15 @@ pub struct GenCfg {
 }
 
 pub fn gen_lit(rng: &mut Rng) -> Lit {
-    match rng.below(10) {
+    // `false` (and so `false|nil` unions) is as frequent as `nil`: falsy-but-not-nil values are where
+    // truthiness narrowing and nil-ness narrowing differ
+    match rng.below(12) {
         0 | 1 => Lit::Nil,
         2 => Lit::Bool(true),
-        3 => Lit::Bool(false),
-        4 | 5 => Lit::Int(rng.below(3) as u32 + 1),
-        6 => Lit::Flt(rng.below(2) as u32 + 1),
-        7 | 8 => Lit::Str(rng.below(3) as u32 + 1),
+        3 | 4 | 5 => Lit::Bool(false),
+        6 | 7 => Lit::Int(rng.below(3) as u32 + 1),
+        8 => Lit::Flt(rng.below(2) as u32 + 1),
+        9 | 10 => Lit::Str(rng.below(3) as u32 + 1),
         _ => Lit::Tbl,
     }
 }
@@ -627,7 +641,10 @@ pub fn gen_cond(rng: &mut Rng, nv: usize, depth: usize, logic: bool) -> Cond {
         };
     }
     match k {
-        0 | 1 => Cond::Truthy(rng.below(nv)),
+        0 | 1 => {
+            // `x` and `not x` equally often (the else arm of `x` / then arm of `not x` holds the falsy values)
+            if rng.chance(1, 2) { Cond::Truthy(rng.below(nv)) } else { Cond::Not(Box::new(Cond::Truthy(rng.below(nv)))) }
+        }
         2 | 3 => Cond::TypeIs(rng.below(nv), rng.below(TNAMES.len()), rng.chance(1, 3), rng.chance(1, 6)),
         4 | 5 => Cond::IsNil(rng.below(nv), rng.chance(1, 2), rng.chance(1, 6)),
         6 => Cond::Not(Box::new(gen_cond(rng, nv, depth - 1, logic))),
@@ -651,6 +668,10 @@ fn gen_block(rng: &mut Rng, cfg: &GenCfg, nv: usize, depth: usize, in_loop: bool
             0..=2 => {
                 if inert {
                     out.push(Stmt::Probe(rng.below(nv)));
+                } else if nv >= 2 && rng.chance(1, 4) {
+                    let x = rng.below(nv);
+                    let y = (x + 1 + rng.below(nv - 1)) % nv;
+                    out.push(Stmt::AssignVar(x, y));
                 } else {
                     out.push(Stmt::Assign(rng.below(nv), gen_lit(rng)));
                 }
